@@ -92,19 +92,22 @@ FlagClauses(e) ==
                \/ (e.cls \in CondCls /\ e.n \in RegEver)>>,       \* a registered Watch/Alarm lives on after its scope completed
              <<"C04.body-needs-activation@" \o e.pcls \o e.suffix, e.pcls \in CondCls => e.parent \in A>>,
              <<"C04.not-after-cancel@" \o e.site, conds \cap X = {}>>,
-             <<(IF conds # {} THEN "C04" ELSE "C05") \o ".not-in-ended-block@" \o e.site, Blind \/ e.same \/ blocks \cap E = {}>>,
+             <<(IF conds # {} THEN "C04" ELSE "C05") \o ".not-in-ended-block@" \o e.site,
+               Blind \/ e.same \/ e.cls \in CondCls \/ blocks \cap E = {}>>,    \* (a Watch/Alarm "runs" when it is invoked: RecClauses)
              <<"C03.threshold-never-before@" \o e.site, e.same \/ ~e.thr \/ e.reached \/ e.n \in F>>,
              <<"C03.wait-max",
                (~e.same /\ e.prevWaitMs >= 0 /\ HasStart(e.prev) /\ e.prev \in D /\ ~e.thr /\ e.n \notin RegEver
                   /\ StartOf(e.prev)[3] = idle /\ StartOf(e.prev)[4] = edits)
                   => ms - StartOf(e.prev)[2] <= CeilTick(e.prevWaitMs) + TickMs>> >>
       [] e.f \in {"started", "completed", "activated", "block_ended"} /\ ~e.on ->
-          << <<"C02.state-reset@" \o e.f \o "-" \o e.site, e.same \/ e.rep \/ (e.ws /\ e.trail)>>,
+          << <<(CASE e.f = "block_ended" -> "C05" [] e.f = "activated" -> "C04" [] OTHER -> "C02") \o ".state-reset@" \o e.f \o "-" \o e.site,
+               e.same \/ e.rep \/ (e.ws /\ e.trail)>>,     \* interpretation state is cleared only when an alarm / macro body runs again
              <<"C04.pending-interrupt-survives-reset-of-its-node@" \o e.site,     \* the enclosing alarm re-armed / macro was called again
-               (e.f = "started" /\ ~e.same) => e.n \notin Ids(R)>> >>
+               e.f = "started" => e.n \notin Ids(R)>> >>
       [] e.f = "completed" /\ e.on /\ ~e.same ->
           << <<"C02.completed-needs-started@" \o e.site, e.n \in S \/ e.cls = "MacroNode">>,
-             <<"C02.completed-without-running@" \o e.site,      \* an instruction completes only after it ran in this invocation
+             <<(IF e.cls = "CallMacroNode" THEN "C41.call-completed-without-running-the-body@" ELSE "C02.completed-without-running@") \o e.site,
+               \* an instruction completes only after it ran in this invocation
                e.tracked /\ e.cls # "MacroNode" => e.n \in began>>,
              <<"C02.trailing-whitespace-passed@" \o e.site, ~(e.ws /\ e.trail)>>,
              <<"C05.block-completes-only-after-end" \o e.suffix, Blind \/ (e.cls = "BlockNode" => e.n \in E)>>,
@@ -131,6 +134,7 @@ FlagClauses(e) ==
       [] OTHER -> <<>>
 
 Without(set, n) == {x \in set : x[1] # n}
+LegitReset(e) == e.phase # "run" \/ e.rep \/ (e.ws /\ e.trail)
 
 FlagUpdate(s, e) ==
     LET n == e.n IN
@@ -141,9 +145,13 @@ FlagUpdate(s, e) ==
             IN [s EXCEPT !.S = @ \cup {n}, !.injPending = @ \ {n},
                          !.calls = IF isCall THEN @ \cup {<<n, m>>} ELSE @,
                          !.stale = IF isCall /\ others # {} THEN @ \cup others \cup {n} ELSE @]
+      [] e.f = "started" /\ ~e.on /\ ~LegitReset(e) -> s           \* reported by the state-reset clause; the monitor keeps what it knows
+      [] e.f = "completed" /\ ~e.on /\ ~LegitReset(e) -> s
+      [] e.f = "block_ended" /\ ~e.on /\ ~LegitReset(e) -> s
       [] e.f = "started" /\ ~e.on -> [s EXCEPT !.S = @ \ {n}, !.began = @ \ {n}, !.inited = @ \ {n}, !.calls = Without(@, n),
                                                 !.stale = IF e.phase = "run" /\ n \in Ids(s.R) THEN @ \cup {n} ELSE @]
-      [] e.f = "completed" /\ e.on -> [s EXCEPT !.D = @ \cup {n}, !.Dt = IF e.tracked THEN @ \cup {n} ELSE @, !.calls = Without(@, n),
+      [] e.f = "completed" /\ e.on -> [s EXCEPT !.D = @ \cup {n}, !.calls = Without(@, n),
+                                                !.Dt = IF e.tracked /\ ({n} \cup SetOfSeq(e.conds)) \cap s.stale = {} THEN @ \cup {n} ELSE @,
                                                 !.justEnded = IF e.cls \in {"EndBlockNode", "EndBlocksNode"} THEN {} ELSE @]
       [] e.f = "completed" /\ ~e.on -> [s EXCEPT !.D = @ \ {n}, !.Dt = @ \ {n}]
       [] e.f = "failed" -> [s EXCEPT !.Fl = IF e.on THEN @ \cup {n} ELSE @ \ {n}, !.calls = IF e.on THEN Without(@, n) ELSE @]
@@ -198,7 +206,7 @@ TickEndClauses(e) ==
     << <<"C05.block-tag-names-innermost",
          Blind \/ (e.started => IF Active = {} THEN e.block \in {"none", ""} ELSE e.block = Innermost(Active)[3])>>,
        <<"C05.pending-interrupts-end-with-block", Blind \/ \A r \in R : r[2] \cap E = {}>>,
-       <<"C04.alarm-rearms", \A a \in mustRearm : a[2] \cap E # {} \/ a[1] \in Ids(R)>>,
+       <<"C04.alarm-rearms", \A a \in mustRearm : a[2] \cap E # {} \/ a[1] \in Ids(R) \/ a[1] \in stale>>,
        <<"C04.true-condition-activates", pendAct = "">>,
        <<"C14.injected-starts-at-next-tick", ranTick => injPending = {}>>,
        <<"C14.injected-command-abandoned",
